@@ -334,7 +334,31 @@ def _check_polyline(X, Y, Q, fails):
     return n_eval
 
 
+def _check_droite(case):
+    """Direct run-time contract of projection_droite (replay of solver counter-models): for a non-vertical line
+    the result is the foot of the perpendicular."""
+    from tracklib.util.geometry import projection_droite
+    a, b, c = case["param"]
+    x, y = case["xy"]
+    if b == 0:
+        return dict(failures=[], evaluations=0, nontrivial=0)
+    try:
+        xp, yp = projection_droite((a, b, c), x, y)
+    except Exception as e:
+        return dict(failures=["projection_droite((%r,%r,%r),%r,%r) raised %s: %s" % (a, b, c, x, y, type(e).__name__, e)],
+                    evaluations=1, nontrivial=1)
+    scale = max(1.0, abs(a), abs(b), abs(c), abs(x), abs(y)) ** 2
+    fails = []
+    if abs(a * xp + b * yp + c) > 1e-9 * scale:
+        fails.append("projection_droite((%r,%r,%r),%r,%r) = (%r,%r) is not on the line" % (a, b, c, x, y, xp, yp))
+    elif abs((x - xp) * (-b) + (y - yp) * a) > 1e-9 * scale:
+        fails.append("projection_droite((%r,%r,%r),%r,%r) = (%r,%r) is not the foot of the perpendicular" % (a, b, c, x, y, xp, yp))
+    return dict(failures=fails, evaluations=1, nontrivial=1)
+
+
 def check_case(case):
+    if case.get("kind") == "droite":
+        return _check_droite(case)
     fails = []
     n_eval = 0
     for P in case["polylines"]:
@@ -350,3 +374,26 @@ def check_case(case):
                 fails.append(f)
     fails.sort(key=lambda f: "vertical-segment" in f)   # anything that is not the known finding comes first
     return dict(failures=fails[:12], evaluations=n_eval, nontrivial=n_eval)
+
+
+# ------------------------------------------------------------------ replay of solver counter-models
+def concretise(obligation):
+    """Counter-model of a C20 obligation -> a one-polyline case of this harness."""
+    from checks import modelutil as mu
+    m = obligation.get("model") or {}
+    fn = obligation.get("function", "")
+    x, y = mu.scalar(m, "in_x", 0.0), mu.scalar(m, "in_y", 0.0)
+    if fn.endswith("proj_polyligne"):
+        n = mu.scalar(m, "in_Xp.0", 2)
+        n = int(n) if isinstance(n, (int, float)) and 2 <= n <= 10 else 3
+        X, Y = mu.array(m, "in_Xp.1", n), mu.array(m, "in_Yp.1", n)
+    elif fn.endswith("projection_droite"):
+        a, b, c = mu.float_list(m, "in_param", 3)
+        return dict(kind="droite", param=[a, b, c], xy=[x, y])
+    else:
+        s = mu.float_list(m, "in_segment", 4)
+        X, Y = [s[0], s[2]], [s[1], s[3]]
+    if not nondegenerate(X, Y):
+        return None
+    return dict(kind="model", coords="model", vertical=has_vertical(X, Y), horizontal_inexact=False,
+                polylines=[dict(X=X, Y=Y)], Q=[[x, y]])
